@@ -27,6 +27,42 @@ CHECKS = {
  "C15": dict(level="model_checking", design="§4 C15", engine="ENUM",
    technique="exhaustive enumeration of the reference grammar to bounded depth/width; round trip + independent reference rewriter",
    text="Every reference string of the grammar inside the listed (heads, depth, width) spaces (up to depth 3, ~370k strings quick, ~12.7M thorough): ParseTypeRef round trip and tree equality, ParseRef/PkgImportPathAndExpose agreement, rendering vs the harness' own rewriter, tracker holds exactly the foreign paths."),
+ "C01": dict(level="model_checking", design="§4 C01", engine="PIPE+ENUM",
+   technique="exhaustive enumeration of rendered-fragment sequences x import sets x modules through the real pipeline; parse/gofmt/gofumpt fixed-point and reference-assembly oracles on every written file; all 2-run regeneration histories",
+   text="Every sequence of <=2 (thorough <=3) fragments from a 22-item menu x 7 import-reference sets on the first module, shorter sequences on 6 more (module path, go directive) combinations; each written file: parses, header names the generator, package clause, gofmt and gofumpt fixed point, flattened declarations and comments == those of the harness' reference assembly. Histories: every ordered fragment pair as long->short and short->long regeneration over the existing file."),
+ "C03": dict(level="model_checking", design="§4 C03", engine="ENUM+PIPE",
+   technique="explicit-state BFS over reference-operation sequences on the real tracker/namer with per-state invariants; exhaustive path enumeration; tracker-session histories in fresh processes; file-level replay through the pipeline",
+   text="Level 1: all paths <=3 segments over 14 (thorough 22) segments. Level 2: BFS to depth 3 (4) over 33 reference ops (all kinds) on 14 colliding paths, states deduplicated by the tracker map, bijection/validity/none-missing/none-unused/stable-name/text invariants after every op. Level 2b: all histories of 2-3 tracker sessions in one fresh process. Level 3: all sequences <=2 (3) of paths rendered through the pipeline and the written file parsed."),
+ "C04": dict(level="model_checking", design="§4 C04", engine="SEAM+PIPE",
+   technique="map-iteration order owned by a build-overlay seam: all policy vectors with a bounded number of deviating range-over-map sites; all entrypoint sequences; repeated runs in-process and in fresh processes; byte equality",
+   text="One order-sensitive module x 6 generators. All policy vectors over the 14 range-over-map sites with <=2 (thorough <=3) deviating sites x 3 policies (862 / ~9k executions), every entrypoint sequence <=3 over 5 spellings x All on/off, 3 consecutive runs (in-process per policy, and one fresh process per run): generated files + gengo.sum byte-identical to the reference execution, identical callback sequence, later runs change nothing."),
+ "C10": dict(level="model_checking", design="§4 C10", engine="ENUM+GOCHECK",
+   technique="exhaustive enumeration of a bounded value model; rendered by the real code in a compiled program, each literal type-checked alone in the target package, survivors compiled and compared at run time",
+   text="~620 (thorough ~700) values: every boundary value of every scalar type, named scalars from 3 packages, one-level pointers, nil/empty/filled slices, arrays, maps under 6 key kinds (two insertion orders), structs with zero/non-zero members of every field kind, depth-2 containers. Oracle: parses, type-checks as `var got T = text` with the registered imports, DeepEqual modulo nil==empty in a compiled program, identical text when rendered twice / for both insertion orders."),
+ "C11": dict(level="model_checking", design="§4 C11", engine="ENUM+GOCHECK",
+   technique="exhaustive enumeration of closed type expressions to bounded depth; rendered from go/types and from reflect; re-type-checked in one universe with types.Identical",
+   text="~1.3k (thorough ~20k) type expressions (all predeclared types, error, any, local/foreign/clashing named types, generic instantiations; constructors *, [], [3], chan, map with 6 key kinds, structs with tags and embedded fields; depth <=2, thorough 3) x 2 sources (go/types, reflect via a compiled helper) x 3 targets (own package, other package, other package with a clashing import already registered); types.Identical(original, re-type-checked rendering)."),
+ "C12": dict(level="model_checking", design="§4 C12", engine="ENUM",
+   technique="exhaustive enumeration of declaration layouts loaded by the real loader vs the harness' own layout model; exhaustive short line lists vs a reference tag splitter",
+   text="All (6 doc forms x trailing yes/no)^3 layouts for 11 declaration kinds (19k files; thorough adds ^4 for two kinds), incl. multi-line declarations with the trailing comment on the closing line: Doc, tags and Comment of every declared object. ExtractCommentTags: every line <=5 (6) over 8 symbols (also custom markers) and every pair of lines <=3 against the reference splitter."),
+ "C13": dict(level="model_checking", design="§4 C13", engine="SEAM+ENUM",
+   technique="exhaustive enumeration of declaration-feature combinations + the real 196-package closure, each loaded under every map-order policy (vectors with bounded deviating sites); every accessor vs go/types; all accessor call sequences of length 3",
+   text="256 synthetic feature combinations + 4 dependency packages and all 196 packages of the real closure; each universe loaded per global policy (4) and per vector with <=1 (thorough <=2) deviating loader sites; Types/Constants/Functions and lookups == Scope(), MethodsOf true/false == Named.Method(i) under all 8 call sequences of length 3, Imports == import specs with identical non-nil packages, LocateInPackage/SourceDir."),
+ "C14": dict(level="model_checking", design="§4 C14", engine="ENUM+SUPERVISE",
+   technique="exhaustive sweep over every function/method of the real closure in supervised child processes (fatal stack overflow = violation) + exhaustive enumeration of synthetic call-graph programs over a return-form grammar",
+   text="(a) all ~11k functions/methods of the closure; (b) all programs of <=2 (thorough 3) functions x 4 result shapes x 15 return forms (literals, if/switch/select/type-switch/labeled-loop/goto returns, calls, forwarding, assignment, bare return, closures with more/fewer results, interface, other package) x all callees incl. self/mutual recursion. Oracle: no crash, arity, n non-empty lists, assignable alternatives, same answer twice, literal-only functions give exactly the literals in source order."),
+ "C16": dict(level="model_checking", design="§4 C16", engine="PIPE+GOCHECK",
+   technique="exhaustive (thorough) / covering (quick) product of type shapes x type-doc texts x field-doc texts; generated twice by the real generator, compiled and run against the harness' source model",
+   text="11 shapes x 14 type-doc texts x 11 field-doc texts (thorough: full product 1.7k packages; quick: diagonal + everything vs none/plain/leading-name + a third of the rest, ~950). Each package: generation succeeds twice byte-identically, compiles with the package, and RuntimeDoc() / RuntimeDoc(name) for every field, delegated field and unknown name equals what the harness wrote."),
+ "C17": dict(level="model_checking", design="§4 C17", engine="PIPE+GOCHECK",
+   technique="exhaustive enumeration of root structs over a field-kind grammar x tag placements; generated twice, compiled, exercised by a reflection-based check program",
+   text="All ordered field lists of length 1..2 over 16 field kinds x tag on package/type x interfaces tag x generic root (quick ~1.2k, thorough ~2.2k packages): output identical on first and second run, compiles, DeepCopy(nil)==nil, DeepEqual, mutating every reachable slice/map of the copy leaves the original == snapshot, DeepCopyInto likewise."),
+ "C18": dict(level="model_checking", design="§4 C18", engine="PIPE+GOCHECK",
+   technique="exhaustive enumeration of origin field subsets x omit subsets x replace x origin location x declaration form; generated, compiled, reflected over at run time; invalid declarations must error",
+   text="All subsets of 1..2 (thorough 3) fields of a 10-field menu x every omit subset x replace x same/other package x single/grouped declaration (quick ~360, thorough ~4k packages): generated struct's fields/order/types/tags == origin's retained ones, DeepCopyAs nil/values/omitted-zero; 5 invalid declarations give an Execute error and no file."),
+ "C20": dict(level="model_checking", design="§4 C20", engine="SCHED+ENUM",
+   technique="stateless exploration of ALL interleavings of small caller configurations at the hooked sync operations (cooperative scheduler + sync shim injected by build overlay); exhaustive sequential enumeration; fresh-process call sequences; free-running -race pass as complement",
+   text="Sequential: every irregular word (read from the tree) x 3 cases x 10 prefixes x both functions with the prefix-preservation oracle, every uninflected pattern instance, case-folding variants, all strings <=3 (4) over 10 symbols, all fresh-process call sequences of length 2 (3). Concurrent: all schedules of 7 scenarios (2-3 goroutines x 1-2 calls, cold and pre-warmed; ~5.4k schedules) - every return == sequential reference, deadlock = violation; the same bodies then run free under -race."),
  "C19": dict(level="model_checking", design="§4 C19", engine="ENUM",
    technique="exhaustive enumeration of all strings up to a length bound over a rune-class alphabet; all short call sequences from fresh processes",
    text="Every string of <=4 (thorough <=5) runes over a 13-class alphabet, plus invalid UTF-8 at every position: totality, losslessness, non-empty words. Purity: all ordered call pairs in-process and every call sequence of length 2/3 (incl. two different functions) executed in a fresh process and compared with the single-call result of a fresh process."),
@@ -65,6 +101,9 @@ def main():
         },
         "engines": [
             {"name": "ENUM", "path": "/verif/mc/core", "serves_properties": sorted(CHECKS), "kind_free_text": "stateless choice-sequence explorer (DFS over recorded choice points, deviation bound, sharded over 16 worker processes), fresh-process workers, evidence/known-finding/replay bookkeeping"},
+            {"name": "SEAM", "path": "/verif/mc/overlay/zzseam + /verif/mc/cmd/seamgen + /verif/mc/seamctl", "serves_properties": ["C04", "C13"], "kind_free_text": "map-iteration-order seam: every range-over-map site of the library is rewritten at check time (go build -overlay, /repo untouched) to iterate in a canonical order transformed by a per-site policy the explorer chooses"},
+            {"name": "SCHED", "path": "/verif/mc/overlay/zzsync", "serves_properties": ["C20"], "kind_free_text": "cooperative deterministic scheduler + drop-in sync shim (Map, Once*, Mutex, RWMutex, WaitGroup, Pool) injected into pkg/inflector by build overlay; DFS over scheduling choices with deviation bound; deadlock detection"},
+            {"name": "GOCHECK", "path": "/verif/mc/gocheck", "serves_properties": ["C10", "C11", "C16", "C17", "C18"], "kind_free_text": "compile-and-run back end: per-package compiler diagnostics, generated main that runs harness-written reflection checks (verifkit)"},
             {"name": "PIPE", "path": "/verif/mc/pipe", "serves_properties": [k for k in sorted(CHECKS) if "PIPE" in CHECKS[k]["engine"]], "kind_free_text": "pipeline driver: synthetic modules in private scratch dirs, gengo.NewContext+Execute through the public API with data-scripted recording generators (faults, Defer, ErrSkip/ErrIgnore, stateful), tree snapshots; child-process mode for runs that die"},
         ],
         "checks": checks,
